@@ -70,6 +70,14 @@ inline Tins::ICMP* gen_icmp(Src& s) {
     return new ICMP((ICMP::Flags)T[s.pick(sizeof T)]);
 }
 
+// PDUCacher<X> around a copy of the packet (X = the root's class); null for a class outside the table
+inline Tins::PDU* make_cacher_of(const Tins::PDU& pdu) {
+#define X(C) if (typeid(pdu) == typeid(Tins::C)) return new Tins::PDUCacher<Tins::C>(static_cast<const Tins::C&>(pdu));
+    VERIF_ENTRY_CLASSES(X)
+#undef X
+    return nullptr;
+}
+
 inline Tins::RawPDU* gen_raw(Src& s, size_t max_payload, bool nonempty = false) {
     size_t n = gen_len(s, max_payload);
     if (nonempty && n == 0) n = 1;
